@@ -229,6 +229,7 @@ def build_request(unit, inst, contracts):
             "_module": c.get("module", ""),
             "option_map": [int(x) for x in c.get("option_map", "").split()] if mode == "body" else [],
             "stmts": [int(x) for x in c.get("stmts", "").split()],
+            "stmts_until": c.get("stmts_until", "").strip(),
             "_slice_header": subst_vars(c.get("slice_header", ""), inst),
             "_slice_footer": subst_vars(c.get("slice_footer", ""), inst),
         }
